@@ -32,12 +32,12 @@ theorem struct_rt {f : Nat} {ps : List Field} (hih : ∀ p ∈ ps, RTat x σ f p
   obtain ⟨hfl, hnd, hreq, hopt⟩ := fieldsOk_unpack σ hok
   have hrel : FieldsRel x σ f ps fs := by
     cases v with
-    | obj kvs => exact deStruct_obj_rel x σ hreq h1
+    | obj kvs => exact deStruct_obj_rel x σ hreq hfl h1
     | arr xs => exact deStruct_arr_rel x σ h1
     | _ => simp [deStruct, hfl] at h1
   simp only [seStruct] at h2
-  have hback := fields_back x σ ps hih fs es hrel h2 hnd hopt es (fun _ _ => rfl)
-  have hkeys := seFieldsR_keys σ h2
+  have hback := fields_back x σ ps hih fs es hrel h2 hnd hopt hfl es (fun _ _ => rfl)
+  have hkeys := seFieldsR_keys σ hfl h2
   simp only [deStruct, hfl, Bool.false_eq_true, if_false]
   have hdeny : (deny && es.any (fun kv => !(ps.any (fun p => p.wire == kv.1)))) = false := by
     cases deny with
